@@ -2,6 +2,7 @@ import Driver.Util
 import Driver.C15
 import Driver.C16
 import Driver.C08
+import Driver.C07
 open Lean
 
 def dispatch (prop : String) (input : Json) : Except String Json :=
@@ -9,6 +10,7 @@ def dispatch (prop : String) (input : Json) : Except String Json :=
   | "C15" => Driver.C15.handle input
   | "C16" => Driver.C16.handle input
   | "C08" => Driver.C08.handle input
+  | "C07" => Driver.C07.handle input
   | p => .error s!"no model for {p}"
 
 def handleLine (line : String) : String :=
